@@ -78,6 +78,15 @@ CHECKS = {
    technique="all interleavings of the handler start-up (spawner announce / task start+subscribe / client) under the controlled scheduler, plus exhaustive lifecycle histories against a reference model",
    text="(a) every schedule of {spawner: announce .registered} x {handler task start} x {client: wait until .registered is visible, append trigger} for resume modes tail / head / after-id on the real Handler::spawn, then a flush frame: the trigger must be processed exactly once. (b) every history of register / invalid register / unregister / ok trigger / failing trigger over 2 names x 2 contexts up to depth 3 (4 thorough): exactly one unregistered per stop with id (and error), the active instance and nobody else answers later frames.",
    note="(a) scheduling points are the verif hooks in Handler::spawn. (b) the serve loops' schedule is the OS's; absence of an answer is decided after all expected answers arrived plus a 40 ms grace period (a slower zombie would be missed, never a false alarm)."),
+
+ "C18": dict(engine="E5-lifecycle", cat="model_checking", ref="DESIGN.md §5 C18",
+   technique="bounded exhaustive enumeration of generator expressions, lifecycles, spawn errors and duplex send sequences against the real generators::serve",
+   text="Expressions yielding 0..3 strings as single value / list value / lazy stream x context x 1-2 consecutive lifecycles (real 1 s restart delay): start, recv per string with that content, stop, restart, all stamped with the spawn id and in the spawn's context; spawn without content, spawn for a running name (exactly one spawn.error naming it), the same name in another context (independent); duplex echo with 0..3 sends, with interleaved unrelated traffic, a send before the instance, a same-name send in another context and a look-alike topic, closed by a sentinel send.",
+   note="Trusted: nushell. Expressions that fail to parse, yield non-strings or the empty string are outside the grammar. Sentinel-based quiescence; the restart delay is real time."),
+ "C19": dict(engine="E5-lifecycle", cat="model_checking", ref="DESIGN.md §5 C19",
+   technique="bounded exhaustive enumeration of command programs and of define/call histories (incl. overlapping calls) against the real commands::serve",
+   text="(a) every command script of {8 output shapes} x {explicit .append} x {eager runtime error} x {return_options}: recv per value in order with the JSON rendering as content, then exactly one complete, or exactly one error; stamps, context, TTL, suffix. (b) every history of define / invalid define / call / two overlapping calls over 2 names x 2 contexts up to depth 3 (4 thorough) ending in an observation: each call is served exactly once by the latest valid definition of its own context; results carry the call id (no mixing between overlapping calls), a per-call env counter must read 0 (no state leak); calls without a definition in their context produce nothing.",
+   note="Trusted: nushell. The schedule of overlapping calls is the OS's (mixing is detectable under any schedule because results embed the call id). Absence is decided after the expected terminal events plus a 60 ms grace period. No-replay-after-restart is C17's check."),
 }
 NOT_YET = {}
 ALL = ["C%02d" % i for i in range(1, 21)]
@@ -116,7 +125,7 @@ def main():
             "add_only": True,
         },
         "engines": [
-            {"name": "E5-lifecycle", "path": "engine/src/e5.rs, engine/src/c15.rs, engine/src/c16.rs", "serves_properties": ["C15", "C16"],
+            {"name": "E5-lifecycle", "path": "engine/src/e5.rs, engine/src/c15.rs, engine/src/c16.rs", "serves_properties": ["C15", "C16", "C18", "C19"],
              "kind_free_text": "real handlers/generators/commands serve loops on a real store, driven through the Store API, sentinel-based quiescence"},
             {"name": "E3-crash", "path": "crash/crashenum.py, engine/src/crash.rs", "serves_properties": ["C04"],
              "kind_free_text": "strace-based crash-image enumerator (python) + traced driver and recovery checker (Rust)"},
